@@ -276,9 +276,13 @@ type ObsC18 struct {
 						src = pl.B.Spec
 					}
 					free := fmt.Sprintf("dev == %d", ndev)
-					if tier != "thorough" && schemaSize(src, asM(asM(asM(src.Doc["components"])["schemas"])[o.BodyDoc]), 0) > 6 {
-						// quick: large documents are valid ones only (symbolic inside their kinds);
-						// the deviating documents of these schemas are the thorough tier's
+					limit := 6
+					if tier == "thorough" {
+						limit = 9
+					}
+					if schemaSize(src, asM(asM(asM(src.Doc["components"])["schemas"])[o.BodyDoc]), 0) > limit {
+						// large documents are valid ones only (symbolic inside their kinds); their
+						// deviating forms are decided per schema by C08
 						free = "false"
 					}
 					fmt.Fprintf(&sb, "\tbody = io.NopCloser(strings.NewReader(%s(\"d\", %s)))\n", fn, free)
